@@ -493,19 +493,20 @@ func (w *World) PreludeFor(pkg string) (string, []*Oblig, error) {
 				}
 				fmt.Fprintf(&body, "(define-fun seglen%s_%d ((c %s)) Int (ite (present%s_%d c) (+ %d %s) 0))\n", V, k, T, V, k, len(prefix), vl)
 				fmt.Fprintf(&body, "(define-fun segpos%s_%d ((c %s)) Int (+ (segpos%s_%d c) (seglen%s_%d c)))\n", V, k+1, T, V, k, V, k)
-				// bytes of the segment at segpos_k
+				// bytes of the segment when it starts at position p
 				var bs []string
 				for j := 0; j < len(prefix); j++ {
-					bs = append(bs, fmt.Sprintf("(= (select (s.arr s) (+ (s.off s) (+ (segpos%s_%d c) %d))) #x%02x)", V, k, j, prefix[j]))
+					bs = append(bs, fmt.Sprintf("(= (select (s.arr s) (+ (s.off s) (+ p %d))) #x%02x)", j, prefix[j]))
 				}
 				for ci, val := range codes {
 					var vb []string
 					for j := 0; j < len(val); j++ {
-						vb = append(vb, fmt.Sprintf("(= (select (s.arr s) (+ (s.off s) (+ (segpos%s_%d c) %d))) #x%02x)", V, k, len(prefix)+j, val[j]))
+						vb = append(vb, fmt.Sprintf("(= (select (s.arr s) (+ (s.off s) (+ p %d))) #x%02x)", len(prefix)+j, val[j]))
 					}
 					bs = append(bs, fmt.Sprintf("(=> (= (f%s_%s c) #x%02x) (and %s))", V, m.Name, ci, strings.Join(vb, " ")))
 				}
-				fmt.Fprintf(&lenDefs, "(define-fun segok%s_%d ((s Str) (c %s)) Bool (=> (present%s_%d c) (and %s)))\n", V, k, T, V, k, strings.Join(bs, " "))
+				fmt.Fprintf(&lenDefs, "(define-fun segokAt%s_%d ((s Str) (c %s) (p Int)) Bool (=> (present%s_%d c) (and %s)))\n", V, k, T, V, k, strings.Join(bs, " "))
+				fmt.Fprintf(&lenDefs, "(define-fun segok%s_%d ((s Str) (c %s)) Bool (segokAt%s_%d s c (segpos%s_%d c)))\n", V, k, T, V, k, V, k)
 				canon = append(canon, fmt.Sprintf("(segok%s_%d s c)", V, k))
 				preludeSorts[fmt.Sprintf("segok%s_%d", V, k)] = SBool
 				preludeSorts[fmt.Sprintf("segpos%s_%d", V, k)] = SInt
